@@ -188,6 +188,10 @@ type ZoneParser struct {
 
 	includeAllowed     bool
 	generateDisallowed bool
+
+	// again is set by subNext when a sub parser ran dry without yielding a
+	// record: Next then carries on with this parser's own input.
+	again bool
 }
 
 // NewZoneParser returns an RFC 1035 style zonefile parser that reads
@@ -304,7 +308,10 @@ func (zp *ZoneParser) subNext() (RR, bool) {
 	}
 
 	zp.sub = nil
-	return zp.Next()
+	// Not zp.Next(): a long run of directives that yield no record would nest
+	// one call per directive and exhaust the stack.
+	zp.again = true
+	return nil, false
 }
 
 // Next advances the parser to the next RR in the zonefile and
@@ -313,6 +320,16 @@ func (zp *ZoneParser) subNext() (RR, bool) {
 // error. After Next returns (nil, false), the Err method will return
 // any error that occurred during parsing.
 func (zp *ZoneParser) Next() (RR, bool) {
+	for {
+		rr, ok := zp.next()
+		if ok || !zp.again {
+			return rr, ok
+		}
+		zp.again = false
+	}
+}
+
+func (zp *ZoneParser) next() (RR, bool) {
 	if zp.parseErr != nil {
 		return nil, false
 	}
